@@ -166,6 +166,11 @@ define_ops! {
     json_reader_dec = |s: BY| opt(serde_json::from_reader::<_, Uint<B, L>>(Env::new(s, 0, 1)));
     json_value_dec = |s: BY| opt(serde_json::from_slice::<serde_json::Value>(&s).and_then(serde_json::from_value::<Uint<B, L>>));
     json_bits_dec = |s: BY| opt(serde_json::from_slice::<Bits<B, L>>(&s));
+    // serde's own value deserializers (human readable by default): the visitor entry points no text format reaches
+    // (visit_u128), and the owned / borrowed string variants
+    serde_u128_dec = |w: W128| { use serde::de::IntoDeserializer; let d: serde::de::value::U128Deserializer<serde::de::value::Error> = w.into_deserializer(); opt(<Uint<B, L> as serde::Deserialize>::deserialize(d)) };
+    serde_u64_dec = |w: W| { use serde::de::IntoDeserializer; let d: serde::de::value::U64Deserializer<serde::de::value::Error> = w.into_deserializer(); (opt(<Uint<B, L> as serde::Deserialize>::deserialize(d)), { let d: serde::de::value::U32Deserializer<serde::de::value::Error> = (w as u32).into_deserializer(); opt(<Uint<B, L> as serde::Deserialize>::deserialize(d)) }, { let d: serde::de::value::U8Deserializer<serde::de::value::Error> = (w as u8).into_deserializer(); opt(<Bits<B, L> as serde::Deserialize>::deserialize(d)) }) };
+    serde_str_dec = |t: ST| { use serde::de::IntoDeserializer; let a = { let d: serde::de::value::StrDeserializer<serde::de::value::Error> = t.as_str().into_deserializer(); opt(<Uint<B, L> as serde::Deserialize>::deserialize(d)) }; let b = { let d: serde::de::value::StringDeserializer<serde::de::value::Error> = t.clone().into_deserializer(); opt(<Uint<B, L> as serde::Deserialize>::deserialize(d)) }; let c = { let d = serde::de::value::BorrowedStrDeserializer::<serde::de::value::Error>::new(t.as_str()); opt(<Uint<B, L> as serde::Deserialize>::deserialize(d)) }; (a, b, c) };
     bincode_dec = |s: BY| opt(bincode::deserialize::<Uint<B, L>>(&s));
     bincode_reader_dec = |s: BY| { use bincode::Options; opt(bincode::DefaultOptions::new().with_fixint_encoding().allow_trailing_bytes().with_limit(1 << 16).deserialize_from::<_, Uint<B, L>>(Env::new(s, 0, 3))) };
     bincode_bits_dec = |s: BY| opt(bincode::deserialize::<Bits<B, L>>(&s));
@@ -767,6 +772,22 @@ fn model(bits: usize, op: Op, args: &[V]) -> Expect {
                 _ => is(V::T(vec![so(r(c_bincode_vec_dec, &vals)), so(r(c_bincode_opt_dec, &first))])),
             }
             .nt(true)
+        }
+        serde_u128_dec => may_accept(bits, Some(BigUint::from(args[0].as_n())), None, true),
+        serde_u64_dec => {
+            let w = args[0].as_n() as u64;
+            let one = |v: u64| -> Vec<V> { if BigUint::from(v) < m { vec![V::None, V::some(u(&BigUint::from(v), bits))] } else { vec![V::None] } };
+            let (a, b, c) = (one(w), one(w as u32 as u64), one(w as u8 as u64));
+            pred("each of (u64, u32, u8 -> Bits): None, or Some(the value) when it fits", move |g| matches!(g, V::T(t) if t.len() == 3 && a.contains(&t[0]) && b.contains(&t[1]) && c.contains(&t[2]))).nt(true)
+        }
+        serde_str_dec => {
+            let t = match &args[0] { V::S(t) => t.clone(), _ => return dont_care() };
+            let ok: Vec<V> = match rc::text_denotes(&t) {
+                Ok(Some(v)) if v < m => vec![V::None, V::some(u(&v, bits))],
+                Ok(None) => return pred("anything but a panic (the text denotes nothing: no claim)", |g| *g != V::Panic).nt(true),
+                _ => vec![V::None],
+            };
+            pred(&format!("the three string routes agree with the text reader: each in {ok:?}"), move |g| matches!(g, V::T(t) if t.len() == 3 && t.iter().all(|x| ok.contains(x)))).nt(true)
         }
         c_json_vec_dec | c_json_opt_dec => {
             // structure through serde_json's own `Value` (trusted for tokenisation), integers through the reference reader
@@ -1459,6 +1480,45 @@ fn c17(r: &Runner) {
                 inputs.dedup();
                 for inp in &inputs {
                     container_decode_all(l, bits, inp);
+                }
+            });
+        }
+        // serde's value deserializers: every 2^k + d as u128 / u64, and the texts of the text universe through the
+        // owned / borrowed string deserializers
+        {
+            let mut ws: Vec<u128> = vec![0, 1, u128::MAX, u64::MAX as u128, (u64::MAX as u128) + 1, (7u128 << 64) | 5, 0x9e3779b97f4a7c15_u128 << 32];
+            for k in 0..128u32 {
+                for d in [-1i128, 0, 1] {
+                    ws.push((1u128 << k).wrapping_add(d as u128));
+                }
+            }
+            if bits < 128 {
+                ws.extend([(1u128 << bits) - 1, 1u128 << bits, (1u128 << bits) + 1, ((1u128 << bits) - 1) | (1u128 << 127), 3u128 << bits.saturating_sub(1)]);
+            }
+            ws.sort();
+            ws.dedup();
+            let texts: Vec<String> = {
+                let mut t: Vec<String> = vec!["".into(), "0".into(), "0x".into(), "0x0".into(), "00".into(), "0x00".into(), "1".into(), "0x1".into(), "0X1".into(), "0b1".into(), "0o7".into(), "+1".into(), "-1".into(), " 1".into(), "1 ".into(), "0x_1".into(), "1_0".into(), "ff".into(), "0xff".into(), "0xFF".into(), "0xfg".into(), "\u{e9}".into(), "1\u{e9}".into(), "0x1\u{161}".into()];
+                for v in [m.clone() - 1u32, m.clone(), &m + 1u32, &m >> 1, pow2(64), pow2(64) - 1u32, pow2(128), pow2(128) - 1u32] {
+                    t.push(v.to_str_radix(10));
+                    t.push(format!("0x{}", v.to_str_radix(16)));
+                    t.push(format!("0x{:0>w$}", v.to_str_radix(16), w = 2 * ((bits + 7) / 8)));
+                    t.push(format!("0x0{}", v.to_str_radix(16)));
+                    t.push(format!("0b{}", v.to_str_radix(2)));
+                    t.push(format!("0o{}", v.to_str_radix(8)));
+                }
+                t.sort();
+                t.dedup();
+                t
+            };
+            r.universe(&format!("serde value deserializers: {} u128 / u64 values, {} texts through Str / String / BorrowedStr", ws.len(), texts.len()), bits, ws.len() + texts.len(), |i, l| {
+                l.states(1);
+                if i < ws.len() {
+                    exec(l, bits, Op::serde_u128_dec, &[V::N(ws[i])]);
+                    exec(l, bits, Op::serde_u64_dec, &[V::N(ws[i] as u64 as u128)]);
+                    exec(l, bits, Op::serde_u64_dec, &[V::N((ws[i] >> 64) as u64 as u128)]);
+                } else {
+                    exec(l, bits, Op::serde_str_dec, &[V::S(texts[i - ws.len()].clone())]);
                 }
             });
         }
